@@ -116,6 +116,9 @@ class IO(object):
 
     def encrypt_socket_server(self, context):
         log.encrypt(self.socket, context)
+        # Anything still buffered was received in clear text before the
+        # handshake and must not be interpreted after it (RFC 3207, 4.2).
+        self.recv_buffer = b''
         try:
             self.socket = context.wrap_socket(self.socket, server_side=True)
             return True
